@@ -475,6 +475,17 @@ func genC07(tier string, seed uint64) {
 	}
 	// end-to-end through the channel (real 1 s flush) and the unwritable destination
 	runE2E([]string{"1024", "10,300,900,50", "700,700", "1200,5"})
+	// a burst larger than the channel's 500 KiB write-behind buffer, into small files: what is handed to the
+	// rotating file must still be whole lines
+	{
+		var burst []string
+		for i := 0; i < 420; i++ {
+			burst = append(burst, fmt.Sprint(1200+r.Intn(600)))
+		}
+		// every event larger than the maximum size: a file of its own each, so a hand-over inside an event
+		// always meets a rotation
+		runE2E([]string{"1024", strings.Join(burst, ",")})
+	}
 	runUnwritable()
 	runDirFault()
 	if tier == "thorough" {
